@@ -21,7 +21,7 @@ func C06(o *world.Obs) *Result {
 		if c.Kind != "resp" {
 			continue
 		}
-		verdict, reason := model.Storability(c.Method, c.Header, c.Status, c.RespHdr, c.BodyFails())
+		verdict, reason := model.Storability(c.Method, c.Header, c.Status, c.RespHdr, c.BodyFails() || c.Short > 0)
 		switch verdict {
 		case "no":
 			if c.Status == http.StatusNotModified && c.Ex >= 0 {
